@@ -272,10 +272,23 @@ Definition exec (o : order) (cap : N) (s : st) (c : cmd) : list ev :=
       if got s then let e := ETry (try_result s) in e :: auto_recv (apply s e) else []
   end.
 
+(* The events of a command are kept while the transition system enables them (so the
+   predicted trace is a run of the system by construction; a wrong prediction shows
+   up as a disagreement with the observed trace). *)
+Fixpoint keep_enabled (o : order) (cap : N) (s : st) (l : list ev) : list ev * st :=
+  match l with
+  | [] => ([], s)
+  | e :: l' =>
+      match step o cap s e with
+      | Some s' => let (r, s'') := keep_enabled o cap s' l' in (e :: r, s'')
+      | None => ([], s)
+      end
+  end.
+
 Fixpoint exec_all (o : order) (cap : N) (s : st) (cs : list cmd) : list ev :=
   match cs with
   | [] => []
-  | c :: cs' => let l := exec o cap s c in l ++ exec_all o cap (run_evs s l) cs'
+  | c :: cs' => let (l, s') := keep_enabled o cap s (exec o cap s c) in l ++ exec_all o cap s' cs'
   end.
 
 (* startup: the first tick of periodic_re_stun_timer (time::interval, immediate) calls
@@ -285,7 +298,7 @@ Definition startup (s : st) : list ev := [ESched Periodic (sched_result s)].
 (* ---- interface ---- *)
 
 (* The code as it is in /repo. *)
-Definition code_order : order := SendFirst.
+Definition code_order : order := ReleaseFirst.
 Definition DONE_CAP : N := 8.   (* mpsc::channel(8), socket.rs:1070 *)
 
 Definition input := (bool * list cmd)%type.   (* relay map empty at bind?, script *)
@@ -293,8 +306,8 @@ Definition output := res (list ev).
 
 Definition model_trace (o : order) (i : input) : list ev :=
   let s0 := init (fst i) in
-  let l0 := startup s0 in
-  l0 ++ exec_all o DONE_CAP (run_evs s0 l0) (snd i).
+  let (l0, s1) := keep_enabled o DONE_CAP s0 (startup s0) in
+  l0 ++ exec_all o DONE_CAP s1 (snd i).
 
 Definition model (i : input) : output := Ok (model_trace code_order i).
 
